@@ -331,26 +331,31 @@ structure InlineLink where
   endPos : Nat
   deriving Repr, DecidableEq
 
-/-- the body of `if let Some(res) = parse_link_destination(..) { … }`: validation of the
-    destination (a rejected one leaves `pos` where it was and `href = None`), blanks, optional
-    title, blanks.  Result: `(href, title, pos)` -/
-def inlineAfterDest (dec : List Char → List Char) (src : List Char) (pos max : Nat) (res : Frag) :
+/-- blanks, optional title, blanks — the part of `parse_link` behind the destination, entered
+    with the `href` decided so far and the position to continue from.  Result: `(href, title, pos)` -/
+def inlineTitlePart (dec : List Char → List Char) (src : List Char) (max : Nat)
+    (href : Option (List Nat)) (pos : Nat) :
     Except Panic (Option (List Nat) × Option (List Char) × Nat) :=
-  let hp : Option (List Nat) × Nat :=
-    match inlineDest dec res.raw with
-    | some u => (some u, res.pos)
-    | none => (none, pos)
-  match slice src hp.2 max with
+  match slice src pos max with
   | .error e => .error e
   | .ok chars =>
-    let pos := skipWs chars hp.2
+    let pos := skipWs chars pos
     match parseLinkTitle src pos max with
     | .error e => .error e
-    | .ok none => .ok (hp.1, none, pos)
+    | .ok none => .ok (href, none, pos)
     | .ok (some t) =>
       match slice src t.pos max with
       | .error e => .error e
-      | .ok chars' => .ok (hp.1, some (dec t.raw), skipWs chars' t.pos)
+      | .ok chars' => .ok (href, some (dec t.raw), skipWs chars' t.pos)
+
+/-- the body of `if let Some(res) = parse_link_destination(..) { … }`: validation of the
+    destination — an accepted one sets `href` and moves `pos` behind it, a rejected one leaves
+    `href = None` and `pos` where it was — then `inlineTitlePart` -/
+def inlineAfterDest (dec : List Char → List Char) (src : List Char) (pos max : Nat) (res : Frag) :
+    Except Panic (Option (List Nat) × Option (List Char) × Nat) :=
+  match inlineDest dec res.raw with
+  | some u => inlineTitlePart dec src max (some u) res.pos
+  | none => inlineTitlePart dec src max none pos
 
 /-- `parse_link` from `pos = label_end + 1` up to the point where it either returns the inline
     link or falls through to the reference lookup (`none`) -/
